@@ -93,6 +93,13 @@ func registerProps() {
 		Assume: []string{"events reach the sender from one event-loop goroutine, as in RunSnapshotSender; concurrency comes from the transfer goroutines"},
 	})
 	reg(&propDef{
+		Parts: []*propDef{{ID: "C08T2", Pkg: "internal/app", Level: "exploration", Unscheduled: true, Env: []string{"GOMAXPROCS=1", "GODEBUG=asyncpreemptoff=1"},
+			Quick: 300, Thorough: 6000, QuickWall: 3 * time.Minute, ThorWall: 10 * time.Minute,
+			Rule:   "tier T2 part: the real authenticateTransport over real transferquic connections on real QUIC/TLS sessions (SimUDP, fake clock): honest pair with the same code (must accept), honest pair with different codes, an attacker that terminates TLS towards both victims and carries the authentication bytes across (same and different codes), an attacker that sends the sender's own proof back (role byte kept or rewritten): the honest ends must reject",
+			Real:   []string{"internal/app.authenticateTransport", "internal/transferquic (streams, ExportKeyingMaterial)", "quic-go v0.58.0, crypto/tls exporter (real)"},
+			Stub:   []string{"UDP: SimUDP", "attacker: harness code on raw quic-go connections"},
+			Assume: []string{"no scheduler in this part; outcomes (accept/reject per end) are what a replay reproduces"}}},
+		
 		ID: "C08", Pkg: "internal/app", Level: "fault_enumeration",
 		Quick: 12000, Thorough: 600000, QuickWall: 4 * time.Minute, ThorWall: 30 * time.Minute,
 		Rule:   "each run = one scenario: honest pair on one session (codes equal / different / empty / prefix / case variant), optionally with one alteration of one authentication message - the 2 x (400 single-bit flips + 50 truncations) alterations are walked systematically by run index, so 900 consecutive direct-topology runs cover all of them; or an attacker without the code relaying / replaying (proofs captured from an earlier session with the same code) / reflecting between two sessions; or a rogue dialer or rogue listener that follows the protocol with a drawn code (including the right one, as positive control), replays, reflects, swaps roles, sends random proofs or stays silent; seeded segmentation (1 byte ... whole message) and schedule; distinct by decision-log hash",
